@@ -1338,12 +1338,15 @@ fn array_ref_to_scalar_value(array: &ArrayRef, index: usize) -> Result<ScalarVal
 
 /// Convert a vector of scalars to an arrow array
 fn results_array_from_scalars(scalars: &[ScalarValue], num_rows: usize) -> Result<ArrayRef> {
-    if scalars.is_empty() {
+    // All non-NULL scalars have the same type; take it from the first of
+    // them. The first ROW's result says nothing: a subquery that finds no
+    // match (or aggregates only NULLs) yields NULL there, and typing the
+    // whole column after it turned every other row's value into NULL too.
+    let Some(first) = scalars.iter().find(|s| !matches!(s, ScalarValue::Null)) else {
         return Ok(Arc::new(arrow::array::NullArray::new(num_rows)));
-    }
+    };
 
-    // All scalars should have the same type
-    match &scalars[0] {
+    match first {
         ScalarValue::Int64(_) => {
             use arrow::array::Int64Array;
             let values: Vec<Option<i64>> = scalars
@@ -1392,9 +1395,19 @@ fn results_array_from_scalars(scalars: &[ScalarValue], num_rows: usize) -> Resul
                 .collect();
             Ok(Arc::new(StringArray::from(values)))
         }
-        _ => {
-            // Default to null array for unsupported types
-            Ok(Arc::new(arrow::array::NullArray::new(num_rows)))
+        other => {
+            // Remaining types a scalar subquery can produce (Int8/16/32,
+            // Float32, Date32): assemble the column value by value.
+            let data_type = scalar_to_array(other, 1).data_type().clone();
+            let values: Vec<ArrayRef> = scalars
+                .iter()
+                .map(|s| match s {
+                    ScalarValue::Null => arrow::array::new_null_array(&data_type, 1),
+                    s => scalar_to_array(s, 1),
+                })
+                .collect();
+            let values: Vec<&dyn Array> = values.iter().map(|a| a.as_ref()).collect();
+            Ok(arrow::compute::concat(&values)?)
         }
     }
 }
